@@ -12,7 +12,7 @@
 From Coq Require Import NArith List Bool.
 From AV Require Import Generated.Table Spec.Io Spec.Strip Model.Base Model.Utf8parse Model.Parser Model.Strip
   Model.Stream Proofs.TableFacts Proofs.StripMachine Proofs.StripSim Proofs.StreamIo Proofs.Stream
-  Proofs.StreamAuto Generated.StreamFn Proofs.StreamGen.
+  Proofs.StreamAuto Generated.StreamFn Proofs.StreamGen Generated.AutoFn Proofs.AutoGen.
 Import ListNotations.
 Local Open Scope N_scope.
 
@@ -91,3 +91,55 @@ Theorem c08_translated_never_is_model :
   match g_ss_run x ops with Some (x1, rs) => Some (ss_state x1, ss_raw x1, rs) | None => None end
   = run_ops b (auto_mode CNever d) (ss_state x) (ss_raw x) ops.
 Proof. exact translated_never_is_model. Qed.
+
+(* AutoStream itself is the Rust code: the constructors, accessors and the five Write methods of
+   crates/anstream/src/auto.rs (and StripStream::{new, into_inner, is_terminal, lock}) TRANSLATED for a
+   non-Windows target with the default features (Generated/AutoFn.v, tools/gen_fn_auto.py; regenerated
+   on every run).  [as_of m s w] is the Rust value of the model's (arm, strip state, inner writer);
+   [cf] is what the raw stream answers: ac_decided = `choice(&raw)` (C09), ac_tty = is_terminal(),
+   ac_wv_all = real vectored writes. *)
+
+(* AutoStream::new(raw, c) builds the arm auto_mode names, over a fresh strip state; it panics exactly
+   when c = Auto and `choice(&raw)` answers Auto (the debug_assert_ne! of `auto`) *)
+Theorem c08_translated_new_is_model :
+  forall cf raw c,
+  g_as_new cf raw c =
+  (if andb (cchoice_eqb c CAuto) (cchoice_eqb (ac_decided cf) CAuto) then None
+   else Some (as_of (auto_mode c (ac_decided cf)) sb_new raw)).
+Proof. exact g_as_new_eq. Qed.
+
+(* one call of any of the five Write methods *)
+Theorem c08_translated_op_is_model :
+  forall cf m s w o,
+  g_as_op cf (as_of m s w) o =
+  match auto_op (ac_wv_all cf) m s w o with Some (s1, w1, r) => Some (as_of m s1 w1, r) | None => None end.
+Proof. exact g_as_op_eq. Qed.
+
+(* any operation sequence *)
+Theorem c08_translated_run_is_model :
+  forall cf m ops s w,
+  g_as_run cf (as_of m s w) ops =
+  match run_ops (ac_wv_all cf) m s w ops with Some (s1, w1, rs) => Some (as_of m s1 w1, rs) | None => None end.
+Proof. exact g_as_run_eq. Qed.
+
+(* new(raw, c); any sequence of write / write_all / write_vectored / write_fmt / flush; current_choice();
+   into_inner(): the per-call results, the reported mode and the inner writer taken back are the model's *)
+Theorem c08_translated_autostream_is_model :
+  forall cf raw c ops,
+  ac_decided cf <> CAuto ->
+  g_as_session cf raw c ops =
+  match run_ops (ac_wv_all cf) (auto_mode c (ac_decided cf)) sb_new raw ops with
+  | Some (_, w1, rs) => Some (rs, current_choice (auto_mode c (ac_decided cf)), w1)
+  | None => None
+  end.
+Proof. exact translated_autostream_is_model. Qed.
+
+(* current_choice(), into_inner(), is_terminal(), lock() on any stream value *)
+Theorem c08_translated_accessors :
+  forall cf m s w,
+  g_as_current_choice cf (as_of m s w) = Some (current_choice m) /\
+  g_as_into_inner cf (as_of m s w) = Some w /\
+  g_as_is_terminal cf (as_of m s w) = Some (ac_tty cf) /\
+  g_as_lock_stdout cf (as_of m s w) = Some (as_of m s w) /\
+  g_as_lock_stderr cf (as_of m s w) = Some (as_of m s w).
+Proof. exact translated_accessors. Qed.
